@@ -203,7 +203,7 @@ def queries(d):
     return qs
 
 
-def tie(run, seed, n, report=True):
+def tie(run, seed, n, report=True, refmatch=None):
     R = random.Random(seed * 7919 + 13)
     defs = [gen(R, k) for k in range(n)]
     srcs = [render(d) for d in defs]
@@ -274,7 +274,22 @@ def tie(run, seed, n, report=True):
             stats['differ'] += 1
             if len(stats['samples']) < 4:
                 stats['samples'].append(dict(definition=srcs[k], why=why))
-            if report:
+            # a difference in the regex sources is turned into a failing input where the regex crate tells the two apart
+            found = []
+            if refmatch is not None and cap.verdict == 'ACCEPT' and len(cap.csrc) == len(tp[1]):
+                pairs = [dict(definition=srcs[k], family='structured', model=m_, code=c_) for m_, c_ in zip(tp[1], cap.csrc) if m_ != c_]
+                found = TP.distinguish(pairs, refmatch, limit=3)
+            for (pr_, w, x, y) in found:
+                stats['witnesses'] = stats.get('witnesses', 0) + 1
+                if report:
+                    run.violation('text-splice', dict(definition=srcs[k], regex_source_prescribed=pr_['model'][2].decode('utf-8', 'replace'),
+                                                      regex_source_built_by_the_code=pr_['code'][2].decode('utf-8', 'replace'),
+                                                      flags_unicode_icase=dict(prescribed=pr_['model'][:2], code=pr_['code'][:2]),
+                                                      input_hex=None if w is None else (w.hex() or '-'), input_text=None if w is None else w.decode('utf-8', 'replace'),
+                                                      prescribed_matches=x, code_matches=y,
+                                                      what='the regex source / flags handed to the regex parser are not those the property prescribes, and the two differ on this string under the regex crate'),
+                                  key='defgen-splice|%s|%s' % (srcs[k], pr_['code'][2].hex()))
+            if report and not found:
                 run.violation('tie', dict(definition=srcs[k], what=why, derive_verdict=cap.verdict, derive_errors=cap.errs[:3],
                                           derive_compile_calls=[(u, i, s.decode('utf-8', 'replace')) for (u, i, s) in cap.csrc], predicted_compile_calls=[(u, i, s.decode('utf-8', 'replace')) for (u, i, s) in tp[1]],
                                           derive_leaves=cap.leaves, predicted_leaves=am[1], predicted_diagnostics=total,
